@@ -207,6 +207,18 @@ CHECKS['C13'] = dict(
          'proved. Children are observed through /proc/<pid>/stat.',
     technique='Hypothesis-generated fault scripts against real worker processes; bounded-response and process-leak oracles')
 
+CHECKS['C19'] = dict(
+    engine='cassette zoo + handwritten operations', category='exploration', design='DESIGN.md 3 C19',
+    text='Hypothesis-generated recording sets over categories that are prefixes of one another, on every cassette type; '
+         'the REAL PlaybackStudio runs with explicit id lists (generated order, and a permutation of it) or '
+         'lookup-driven selection, tuners failing for a generated subset of categories, result generators consumed in a '
+         'generated interleaving, in-process and (rarely) in dedicated processes. Per-category playback function / '
+         'extractor / comparator are tagged harness closures; oracle: exactly-once replay by the own category\'s '
+         'functions, failing tuner isolated, lookup-driven routing, deterministic category order under permutation.',
+    note='Journals give exactly-once in-process; verdict messages carry the tuning category so that attribution is also '
+         'checked in the dedicated-process arm.',
+    technique='Hypothesis property-based testing with tagged callbacks + permutation metamorphic relation')
+
 ENGINES = [
     ('procfault', 'pbt/procfault.py', 'Equalizer process-fault harness: fault scripts executed by user callbacks, '
                                       'slow-kill schedule control, task pipe, /proc child observation', ['C08', 'C13']),
